@@ -265,6 +265,33 @@ theorem operator_by_keyword_index_error (c : String) (hc : c ∈ operatorClasses
 where
   table_second_lookup : ∀ e ∈ handledSecond, genTables.second.lookup e.1 = some e.2 := by decide +kernel
 
+/-- The same call once `__torch_function__` completes the positional tuple from `input=` / `other=` (proposed fix
+notes/C15_fix_3.diff, model `dispatchKN true`): the reflected handler runs with swapped operands, exactly as for
+`torch.f(x, op)` — so `second_arg_meaning_generated` applies to it. -/
+theorem operator_by_keyword_normalised {κ : Type} (T : Tables) (c f m d : String) (a0 : Arg) (kw : κ)
+    (h0 : a0.plain = true) (hf : T.second.lookup f = some m) (hr : resolve T.classes c m = some d) :
+    dispatchKN true T f [a0] [.op c] kw = .call d m [.op c, a0] true kw ∧
+      dispatchKN true T f [a0] [.op c] kw = dispatch T f [a0, .op c] kw := by
+  refine ⟨dispatchKN_operator_by_keyword T c f m d a0 kw h0 hf hr, ?_⟩
+  rw [dispatchKN_operator_by_keyword T c f m d a0 kw h0 hf hr, dispatch_op_second T c f m d a0 [] kw h0 (by simp) hf hr]
+
+/-- Whichever of the two behaviours today's source has (`kwNormalised`, extracted from `__torch_function__`), the model used by
+the driver follows it: `IndexError` before the fix, the ordinary second-argument call after it. -/
+theorem operator_by_keyword_generated (c : String) (hc : c ∈ operatorClasses) (e : String × String)
+    (he : e ∈ handledSecond) (a0 : Arg) (h0 : a0.plain = true) :
+    dispatchKN kwNormalised genTables e.1 [a0] [.op c] () =
+      (if kwNormalised then dispatch genTables e.1 [a0, .op c] () else .indexError) := by
+  have hr := table_handled_resolves c hc e (List.mem_append_right _ he)
+  obtain ⟨d, hd⟩ := Option.isSome_iff_exists.1 hr
+  have hl := operator_by_keyword_index_error.table_second_lookup e he
+  cases hk : kwNormalised with
+  | false =>
+    simp only [dispatchKN_false, Bool.false_eq_true, if_false]
+    exact dispatchK_operator_by_keyword genTables c e.1 e.2 d a0 () h0 hl hd
+  | true =>
+    simp only [if_true]
+    exact (operator_by_keyword_normalised genTables c e.1 e.2 d a0 () h0 hl hd).2
+
 /-- `torch.f(op, other=x)` (the other operand by keyword) is the ordinary first-argument call with `other` in kwargs. -/
 theorem other_by_keyword_dispatch {κ : Type} (T : Tables) (c f m d : String) (kwops : List Arg) (kw : κ)
     (hk : ∀ a ∈ kwops, a.plain = true) (hf : T.first.lookup f = some m) (hr : resolve T.classes c m = some d) :
